@@ -81,6 +81,18 @@ def _analyse(t):
     return t
 
 
+def _transitions(t):
+    # a consumer pass: the in-order and gap oracles are run on the tree as it is (whatever they return or raise)
+    from trees import transitions
+    for system in ('inorder', 'gap'):
+        try:
+            terms, trans = getattr(transitions, system)(t)
+            list(trans)
+        except Exception:
+            pass
+    return t
+
+
 def _extract(t):
     from trees import grammar
     grammar.extract(t, {}, {})
@@ -124,6 +136,7 @@ EXTRA_OPS = collections.OrderedDict([
     ('write_brackets', _write_brackets),
     ('gap_analysis', _analyse),
     ('grammar_extract', _extract),
+    ('transitions', _transitions),
 ])
 
 
